@@ -605,7 +605,22 @@ def init_next(ctx):
     stores = []
     for m in mods:
         cl = resolve(m["args"][1])
-        stores += [(m, x) for x in walk(cl) if x.get("k") == "assign" and field_path(x["l"]) and field_path(x["l"])[2] and field_path(x["l"])[2][-1] in ("init", "next")]
+        for x in walk(cl):
+            if x.get("k") != "assign":
+                continue
+            fp_ = field_path(x["l"])
+            if fp_ and fp_[2] and fp_[2][-1] in ("init", "next"):
+                stores.append((m, x, fp_[2][-1], []))
+                continue
+            tgt = peel(x["l"])
+            while tgt.get("k") == "unary" and tgt.get("op") == "*":
+                tgt = peel(tgt["e"])
+            if tgt.get("k") == "local":
+                # `let slot = if is_init { &mut state.init } else { &mut state.next }; *slot = Some(expr)`: one store per alternative of the slot
+                for cs_, leaf in norm_.value_alternatives(tgt):
+                    lf = field_path(leaf)
+                    if lf and lf[2] and lf[2][-1] in ("init", "next"):
+                        stores.append((m, x, lf[2][-1], cs_))
     ctx.floor("R08.5", "init/next stores in parse_state_init_or_next", len(stores), 2)
 
     def classify(a):
@@ -641,11 +656,10 @@ def init_next(ctx):
     ctx.inst("R08.5", "init_next:state-type-vs-declared-sort", "state-vs-declared" in kinds, f["span"], "no dominating check_type(state type, declared sort)? before the state is modified")
     ctx.inst("R08.5", "init_next:expr-type-vs-declared-sort", "expr-vs-declared" in kinds, f["span"], "no dominating check_type(type of the assigned expression, declared sort)? before the state is modified: an init/next of the wrong sort would be attached")
     # the expression stored is the one that was checked, in the field selected by the flag
-    for i, (m, st) in enumerate(stores):
+    for i, (m, st, fld, alt_conds) in enumerate(stores):
         r = peel(st["r"])
         ok = r.get("k") == "ctor" and callee(r).endswith("Option::Some") and final_checked is not None and is_local(r["args"][0], final_checked)
-        fld = field_path(st["l"])[2][-1]
-        conds = norm_.path_conditions(ix, st, arms=True)
+        conds = norm_.path_conditions(ix, st, arms=True) + [(resolve(c_) if c_.get("k") not in ("armpat", "letexpr") else c_, pol) for c_, pol in alt_conds]
         flag_ok = flag_says(conds) == {fld}
         ctx.inst("R08.5", "init_next:store#%d" % (i + 1), ok and flag_ok, st["sp"], "the state's %s must be set to the checked expression under the matching init/next flag: %s" % (fld, show(m)[:120]), sample=show(st)[:120])
     # array lifting only for init with a bit-vector operand on an array state
